@@ -135,6 +135,9 @@ def build_model(p):
               max_leaf_size=p['max_leaf_size'], device='cpu', verbose=False, random_state=p['seed'],
               n_threads=p['n_threads'], split_method=p['split_method'], n_trees=p.get('n_trees', 1),
               classification_mode=p.get('classification_mode', 'zero_one'), refill_size=p.get('refill_size', 1500))
+    if p.get('onehot'):
+        # float targets that are already one-hot / binarised are accepted together with a classification metric
+        kw.update(tuning_metric=p.get('onehot_metric', 'brier'), classification_mode='zero_one')
     if p['routing'] == 'soft':
         kw.update(split_temperature=0.3, use_temperature_tuning=False)
     elif p['routing'] == 'hard':
@@ -153,6 +156,11 @@ def run_case(p):
     import torch
     data = xc.make_data(p['dseed'], p['n'], p['d'], p['task'])
     cx, cy = p['container_x'], p['container_y']
+    if p.get('onehot'):
+        K = 3 if p['task'] == 'multi' else 2
+        oh = lambda lab: (torch.nn.functional.one_hot(lab, K).float() if K > 2 else lab.float().reshape(-1, 1))  # noqa: E731
+        data['y'], data['yv'] = oh(data['y']), oh(data['yv'])
+        cy = cy if cy in ('tensor', 'ndarray32') else 'tensor'
     caller = {
         'X': as_container(data['X'], cx), 'y': as_container(data['y'], cy),
         'X_val': as_container(data['Xv'], cx), 'y_val': as_container(data['yv'], cy),
@@ -339,6 +347,15 @@ def gen_cases(run):
             classification_mode=r.choice(['zero_one', 'prevalence']), n_trees=r.choice([1, 1, 2]),
             bandwidth_mode='adaptive' if (k % 5 == 2 and kernel != 'sum_power_laplace') else 'constant',
             y_1d=(k % 2 == 0), refill_size=r.choice([1500, 12])))
+    # classification with float targets that are already one-hot (multi) / binarised (bin), tensors and float32 arrays
+    for k in range(4 if run.tier == 'quick' else 32):
+        cases.append(dict(
+            family='call-sequences', kernel=['l2', 'l1'][k % 2], diag=False, task=['multi', 'bin'][k % 2 if k >= 2 else 0],
+            routing=['hard', 'tuned'][k % 2], n_threads=[None, 2][k % 2], env0=None, threads0=[2, 4][k % 2],
+            container_x='tensor', container_y=['tensor', 'ndarray32'][(k // 2) % 2] if k < 2 else ['ndarray32', 'tensor'][k % 2],
+            n=[24, 44, 90, 44][k % 4], d=3, max_leaf_size=24, iters=1, split_method=['pca', 'random'][k % 2],
+            seed=r.randint(0, 10 ** 6), dseed=r.randint(0, 10 ** 6), classification_mode='zero_one', n_trees=1,
+            bandwidth_mode='constant', y_1d=False, refill_size=1500, onehot=True, onehot_metric=['brier', 'accuracy'][k % 2]))
     # calls whose body raises (outside the property: observation + model comparison)
     n_raise = 8 if run.tier == 'quick' else 64
     for k in range(n_raise):
